@@ -20,7 +20,9 @@ ID = 'C19'
 LEVEL = 'exploration'
 ENGINE = 'E2'
 EXHAUSTIVE = True
-RULE = ('mapping cases: ordered pair of family geometries (incl. identity: same object and an equal copy) x source '
+RULE = ('(wave 3: source states as lists / ndarrays / set through inc.variable; second transfer with the mappings '
+        'passed in; model cases with empty lists left at their defaults, alone and after a primer call with other '
+        'top/bottom lists; arguments compared before/after) mapping cases: ordered pair of family geometries (incl. identity: same object and an equal copy) x source '
         'atmosphere type x target atmosphere type x (source, target) naming convention; every target block is one '
         'comparison against the brute-force image set; incon cases: each mapping case x 1..5 primary variables with '
         'values distinct per source block and variable; model cases: geometry x atmosphere x convention x generator set '
@@ -274,17 +276,32 @@ def check_mapping(mapping, ps, pt, same, mp):
     return None
 
 
-def make_incon(ps, nvar):
+STATES = ('list', 'array', 'setvar')
+
+
+def make_incon(ps, nvar, states='list'):
+    """Source initial conditions; the states are held as lists (constructor), as one float ndarray per block, or
+    set through the documented `inc.variable = <2-D array>` (every block then holds a row view of that array)."""
+    import numpy as np
     from t2incons import t2incon, t2blockincon
     inc = t2incon()
     for k, name in enumerate(ps['names']):
         inc[name] = t2blockincon([1000.0 * (k + 1) + v + 0.5 for v in range(nvar)], block=name,
                                  porosity=0.01 + 1e-5 * k)
+    if states == 'array':
+        for b in inc:
+            b.variable = np.array(b.variable, dtype=float)
+    elif states == 'setvar':
+        inc.variable = np.array([list(b.variable) for b in inc], dtype=float)
     return inc
 
 
 def snapshot(inc):
-    return [(b.block, tuple(b.variable), b.porosity) for b in inc]
+    return [(b.block, tuple(float(v) for v in b.variable), b.porosity) for b in inc]
+
+
+def state_sets(nvar, full):
+    return STATES if (nvar == 2 or (full and nvar in (1, 5))) else STATES[:1]
 
 
 def check_incon(new, src_before, src_after, ps, pt, nvar, mp):
@@ -333,7 +350,7 @@ def check_incon(new, src_before, src_after, ps, pt, nvar, mp):
     return None
 
 
-def run_map_case(s, t, cs, ct, ats, att, variant, rec=None):
+def run_map_case(s, t, cs, ct, ats, att, variant, rec=None, full=False):
     """One (pair, conventions, atmosphere types) case: mapping + incon transfers for 1..5 variables.
     variant: 'copy' (separate objects) or 'self' (the same object as source and target).
     Returns list of (sig, what)."""
@@ -383,29 +400,71 @@ def run_map_case(s, t, cs, ct, ats, att, variant, rec=None):
             given = None
         finally:
             set_atm(tgt, att)
+    stop = False
     for nvar in range(1, 6):
-        inc = make_incon(ps, nvar)
-        before = snapshot(inc)
-        new = t2incon()
-        try:
-            with quiet():
-                with core.timelimit(120):
-                    new.transfer_from(inc, src, tgt)
-        except core.CaseTimeout:
-            out.append(('C19|t2incon.transfer_from|timeout|' + atmclass, 'transfer_from did not return within 120 s'))
-            break
-        except Exception as e:
-            out.append(('C19|t2incon.transfer_from|exception:%s|%s' % (type(e).__name__, atmclass),
-                        'transfer_from(%s -> %s, %d variables) raised %r' % (s, t, nvar, e)))
+        for states in state_sets(nvar, full):
+            inc = make_incon(ps, nvar, states)
+            before = snapshot(inc)
+            new = t2incon()
+            sfx = '' if states == 'list' else ',states=' + states
+            try:
+                with quiet():
+                    with core.timelimit(120):
+                        new.transfer_from(inc, src, tgt)
+            except core.CaseTimeout:
+                out.append(('C19|t2incon.transfer_from|timeout|' + atmclass + sfx, 'transfer_from did not return within 120 s'))
+                stop = True
+                break
+            except Exception as e:
+                out.append(('C19|t2incon.transfer_from|exception:%s|%s' % (type(e).__name__, atmclass + sfx),
+                            'transfer_from(%s -> %s, %d variables, %s states) raised %r' % (s, t, nvar, states, e)))
+                if rec is not None:
+                    rec.count('incon_raised', 1)
+                stop = True
+                break
+            first = snapshot(new)
+            r = check_incon(new, before, snapshot(inc), ps, pt, nvar, mp)
             if rec is not None:
-                rec.count('incon_raised', 1)
-            break
-        r = check_incon(new, before, snapshot(inc), ps, pt, nvar, mp)
-        if rec is not None:
-            rec.count('blocks_compared', len(pt['names']))
-            rec.count('incon_transfers', 1)
-        if r is not None:
-            out.append(('C19|t2incon.transfer_from|%s|%s' % (r[0], r[2]), '%s -> %s, %d variables: %s' % (s, t, nvar, r[1])))
+                rec.count('blocks_compared', len(pt['names']))
+                rec.count('incon_transfers', 1)
+            if r is not None:
+                out.append(('C19|t2incon.transfer_from|%s|%s' % (r[0], r[2] + sfx),
+                            '%s -> %s, %d variables, %s states: %s' % (s, t, nvar, states, r[1])))
+                stop = True
+                break
+            # repeatability and arguments: a second transfer from the same source, this time with the
+            # mappings passed in, gives the same result and leaves source and mappings as they were
+            if mapping is not None and nvar == 2:
+                m0, c0 = dict(mapping), dict(colmap)
+                again = t2incon()
+                try:
+                    with quiet():
+                        with core.timelimit(120):
+                            again.transfer_from(inc, src, tgt, mapping, colmap)
+                except Exception as e:
+                    out.append(('C19|t2incon.transfer_from|exception:%s|%s,second-call' % (type(e).__name__, atmclass + sfx),
+                                'second transfer_from(%s -> %s, mappings passed in) raised %r' % (s, t, e)))
+                    stop = True
+                    break
+                if rec is not None:
+                    rec.count('incon_second_transfers', 1)
+                if snapshot(again) != first:
+                    out.append(('C19|t2incon.transfer_from|second-call-differs|' + atmclass + sfx,
+                                '%s -> %s, %d variables, %s states: a second transfer from the same source gives another '
+                                'result' % (s, t, nvar, states)))
+                    stop = True
+                    break
+                if snapshot(inc) != before:
+                    out.append(('C19|t2incon.transfer_from|source-altered|%s,second-call' % (atmclass + sfx),
+                                '%s -> %s: the source initial conditions changed during the second transfer' % (s, t)))
+                    stop = True
+                    break
+                if mapping != m0 or colmap != c0:
+                    out.append(('C19|t2incon.transfer_from|argument-altered|' + atmclass + sfx,
+                                '%s -> %s: the mapping dictionaries passed in were modified' % (s, t)))
+                    stop = True
+                    break
+        if stop:
             break
     if given is not None:
         for nvar in range(1, 6):
@@ -438,9 +497,9 @@ def map_cases(s, t, tier):
     for cs, ct in conv_pairs(s, t, tier):
         for ats in (0, 1, 2):
             for att in (0, 1, 2):
-                yield {'kind': 'map', 's': s, 't': t, 'cs': cs, 'ct': ct, 'ats': ats, 'att': att, 'variant': 'copy'}
+                yield {'kind': 'map', 's': s, 't': t, 'cs': cs, 'ct': ct, 'ats': ats, 'att': att, 'variant': 'copy', 'full': tier == 'thorough'}
                 if s == t and cs == ct and ats == att:
-                    yield {'kind': 'map', 's': s, 't': t, 'cs': cs, 'ct': ct, 'ats': ats, 'att': att, 'variant': 'self'}
+                    yield {'kind': 'map', 's': s, 't': t, 'cs': cs, 'ct': ct, 'ats': ats, 'att': att, 'variant': 'self', 'full': tier == 'thorough'}
 
 
 # ---------------------------------------------------------------------------------------------- model cases
@@ -540,7 +599,7 @@ def eval_model_case(case):
             _models[dkey] = dat
         dat = _models[dkey]
         dat.clear_generators()
-        top, bottom = [], []
+        top, bottom, cats = [], [], []
         want = []
         for slot, (pos, kind) in enumerate(gset):
             g, cat = make_generator(src, pos, kind, slot, naming)
@@ -549,6 +608,7 @@ def eval_model_case(case):
             if (g.block, g.name) in dat.generator:
                 raise core.HarnessError('generator key clash in the model set')
             dat.add_generator(g)
+            cats.append(cat)
             # top/bottom generators are named after their column by the transfer, the others only when
             # rename_generators is set (docstring of transfer_generators_from); otherwise the name is kept
             renamed = pos.endswith('-listed') or case['rename']
@@ -561,18 +621,45 @@ def eval_model_case(case):
     want.sort()
     before = sorted(gen_record(g) for g in dat.generatorlist)
     rocks = dict((b.name, b.rocktype.name) for b in dat.grid.blocklist)
-    new = t2data()
-    try:
+    unlisted = [cat for cat in cats if cat not in top and cat not in bottom]
+    primer = case.get('primer')
+
+    def call(obj, tops, bottoms, omit_empty):
+        """transfer_from with the lists given; empty lists are left out (the defaults) when omit_empty."""
+        kw = {'rename_generators': bool(case['rename']), 'preserve_generation_totals': bool(case['preserve'])}
+        if tops or not omit_empty:
+            kw['top_generator'] = tops
+        if bottoms or not omit_empty:
+            kw['bottom_generator'] = bottoms
         with quiet():
             with core.timelimit(120):
-                new.transfer_from(dat, src, tgt, top_generator=top, bottom_generator=bottom,
-                                  rename_generators=bool(case['rename']),
-                                  preserve_generation_totals=bool(case['preserve']))
+                obj.transfer_from(dat, src, tgt, **kw)
+
+    if primer:
+        # order independence: ANOTHER model object first makes a transfer with other top/bottom lists (the categories
+        # this case does not list, declared as bottom or as top generators, the other list left at its default); the
+        # case itself then runs with its empty lists left at their defaults and must give what it gives in isolation
+        cls += ',after=primer-' + primer
+        try:
+            other = t2data()
+            if primer == 'bottom':
+                call(other, [], list(unlisted) or ['zz'], True)
+            else:
+                call(other, list(unlisted) or ['zz'], [], True)
+        except Exception:
+            pass                     # the primer's own result is another case's business
+    new = t2data()
+    top0, bottom0 = list(top), list(bottom)
+    try:
+        call(new, top, bottom, bool(primer) or bool(case.get('omit')))
     except core.CaseTimeout:
         return [('C19|t2data.transfer_from|timeout|' + cls, 'transfer_from did not return within 120 s')]
     except Exception as e:
         return [('C19|t2data.transfer_from|exception:%s|%s' % (type(e).__name__, cls),
                  'transfer_from onto an identical geometry (%s) raised %r' % (gid, e))]
+    if top != top0 or bottom != bottom0:
+        return [('C19|t2data.transfer_from|argument-altered|' + cls,
+                 'top_generator / bottom_generator passed as %r / %r are %r / %r after the call' % (top0, bottom0, top, bottom))]
     got = sorted(gen_record(g) for g in new.generatorlist)
     out = []
     if sorted(gen_record(g) for g in dat.generatorlist) != before:
@@ -616,6 +703,7 @@ def run_model_case(case):
     found = eval_model_case(case)
     if found and (case['preserve'] or case['rename']):
         plain_case = dict(case, preserve=0, rename=0)
+        plain_case.pop('primer', None)
         base = dict((sig.split('|')[2], sig) for sig, _ in eval_model_case(plain_case))
         found = [((base[sig.split('|')[2]], what) if sig.split('|')[2] in base else (sig, what)) for sig, what in found]
     return found
@@ -633,6 +721,13 @@ def model_cases(gid, conv):
                     for rename in (0, 1):
                         yield {'kind': 'model', 'g': gid, 'conv': conv, 'atm': atm, 'set': k, 'preserve': preserve,
                                'rename': rename, 'naming': naming}
+                # the same case with its empty lists left at the defaults, alone and after each primer call
+                for primer in (None, 'bottom', 'top'):
+                    c = {'kind': 'model', 'g': gid, 'conv': conv, 'atm': atm, 'set': k, 'preserve': 0, 'rename': 0,
+                         'naming': naming, 'omit': 1}
+                    if primer:
+                        c['primer'] = primer
+                    yield c
 
 
 # ---------------------------------------------------------------------------------------------- driver
@@ -643,7 +738,8 @@ def case_key(c):
 
 def run_case(case, rec=None):
     if case['kind'] == 'map':
-        return run_map_case(case['s'], case['t'], case['cs'], case['ct'], case['ats'], case['att'], case['variant'], rec)
+        return run_map_case(case['s'], case['t'], case['cs'], case['ct'], case['ats'], case['att'], case['variant'], rec,
+                            bool(case.get('full')))
     return run_model_case(case)
 
 
